@@ -436,7 +436,10 @@ def replay_findings(ctx, sides, prop):
         cid = kf.get("class", kf["id"])
         if cid == "KF-C06-7":
             # never returns: alone, under a short watchdog (the call is answered `hang` when it has not returned)
-            ia, mb, _ = sides.run(wit, watchdog=ctx.pick(4, 10))
+            ia, mb, _ = sides.run(wit, watchdog=ctx.pick(5, 10))
+            if "hang" in ia[:-1]:
+                # an earlier, harmless line ran into the short watchdog (overloaded machine): once more, generously
+                ia, mb, _ = sides.run(wit, watchdog=30)
             ctx.extra.setdefault("known_finding_witness", []).append(dict(id=kf["id"], impl=ia[-1]))
             if ia[-1] == "hang" and ia[:-1] == mb[:-1]:
                 ctx.known(kf["id"], "copying a node onto itself through the cache does not return (watchdog): " + kf["observed"][:160])
